@@ -1117,6 +1117,12 @@ func runRespCase(c RespCase, seed int64) RespEv {
 		}
 	}
 	// a codec the user registered for a media type of their own, next to the built-in ones
+	// an HttpBody reply whose data is exactly as long as the send limit allows (what is sent is the data, not the HttpBody
+	// message around it)
+	exactSend := c.Kind == "httpbody" && c.RespBody == "" && c.ID%4 == 3
+	if exactSend {
+		cfgOpt = append(cfgOpt, larking.MaxSendMessageSizeOption(300))
+	}
 	if c.ID%5 == 2 && c.Kind != "upecho" {
 		// a mux that restricts what it receives (uploads) says nothing about what it may send: replies of any size go out
 		cfgOpt = append(cfgOpt, larking.MaxReceiveMessageSizeOption(256))
@@ -1133,6 +1139,9 @@ func runRespCase(c RespCase, seed int64) RespEv {
 	switch c.Kind {
 	case "httpbody":
 		rawData = []byte("raw \x00\xff bytes " + strings.Repeat("z", r.Intn(300)))
+		if exactSend {
+			rawData = append(rawData, bytes.Repeat([]byte("y"), 300)...)[:300-c.ID%8/7]
+		}
 		ev.WantCT = []string{"image/png", "text/plain; charset=utf-8", "application/x-thing", "application/json", ""}[r.pick(5)]
 		reply = &httpbody.HttpBody{ContentType: ev.WantCT, Data: rawData}
 		if c.RespBody == "hb" { // the raw body is a field of a wrapper reply, selected by response_body
